@@ -70,8 +70,20 @@ def draw_mapping_cfg(rng, W, **force):
         'encoding': rng.choice(['dense', 'csr', 'csc']),
         'max_gb': rng.choice([1.0, 1.0, 1e-7]),
     }
+    # per-level bootstrap factors (the CLI's bootstrap_factor_lookup) in a third of the runs
+    if rng.random() < 0.33:
+        cfg['factor_lookup'] = {lv: rng.choice([1.0, 0.9, 0.7, 0.5, 0.3]) for lv in (['None'] + list(tax.hierarchy[:-1]))}
     cfg.update(force)
+    if cfg.get('factor_lookup') and 'bootstrap_factor' in force:
+        cfg['factor_lookup'] = None
     return cfg
+
+
+def factor_for(mcfg, parent_level):
+    lk = mcfg.get('factor_lookup')
+    if lk:
+        return lk[str(parent_level)]
+    return mcfg['bootstrap_factor']
 
 
 def setup_mapping_inputs(sb, W, mcfg, query=None, stats_kw=None, markers=None, q_genes=None,
@@ -97,6 +109,8 @@ def mapping_driver_cfg(sb, paths, mcfg, tag='out', out_sub=None):
     kw = dict(chunk_size=mcfg['chunk_size'], n_processors=mcfg['n_processors'],
               n_runners_up=mcfg['n_runners_up'], bootstrap_iteration=mcfg['bootstrap_iteration'],
               bootstrap_factor=mcfg['bootstrap_factor'], min_markers=mcfg['min_markers'],
+              bootstrap_factor_lookup=([[k, v] for k, v in mcfg['factor_lookup'].items()]
+                                       if mcfg.get('factor_lookup') else None),
               rng_seed=mcfg['rng_seed'], normalization=mcfg.get('normalization', 'raw'),
               drop_level=mcfg.get('drop_level'), flatten=mcfg.get('flatten', False),
               cloud_safe=mcfg.get('cloud_safe', False), max_gb=mcfg.get('max_gb', 1.0))
